@@ -408,13 +408,9 @@ def make_case(rng, n_ops):
             if not objs:
                 continue
             alive = [i for i, o in enumerate(objs) if o['alive']]
-            # when_built / when_closed are asked on objects already gone one time in five; close requests on a gone
-            # object rarely (Stream.close after CLOSED/FAILED and Circuit.close after FAILED are known findings)
             gone = [i for i, o in enumerate(objs) if not o['alive']]
-            if k in ('wb', 'wc'):
-                pick_gone = bool(gone) and (not alive or rng.random() < 0.2)
-            else:
-                pick_gone = bool(gone) and rng.random() < 0.2 / n_ops
+            # one request in five goes to an object that is already gone (when_built / when_closed / close alike)
+            pick_gone = bool(gone) and (not alive or rng.random() < 0.2)
             if pick_gone:
                 i = rng.choice(gone)
                 tags.add('wait-on-gone-object')
@@ -438,26 +434,6 @@ def make_case(rng, n_ops):
         for _ in range(outstanding[0]):
             ops.append(['ack'])
     return {'cons': cons, 'pre': pre, 'snap': snap, 'ops': ops, 'tags': sorted(tags | wk.tags)}
-
-
-def close_after_gone(case, circ):
-    """a close request on a Stream whose CLOSED/FAILED was already delivered (circ=False), or on a Circuit that Tor
-    reported FAILED (circ=True)"""
-    tr = Tracker()
-    failed = set()
-    for op in all_ops(case):
-        if op[0] == 'ev':
-            e = op[1]
-            n = tr.event(e)
-            if e[0] == 'c' and e[2] == C_FAILED:
-                failed.add(n)
-        elif op[0] == 'sc' and not circ:
-            if op[1] < len(tr.sobjs) and not tr.sobjs[op[1]]['alive']:
-                return True
-        elif op[0] == 'cc' and circ:
-            if op[1] in failed:
-                return True
-    return False
 
 
 class P(core.Prop):
@@ -564,8 +540,6 @@ class P(core.Prop):
                     continue
                 for pos in range(start, len(evs) + 1):
                     if kind in ('cc', 'sc'):
-                        if gone is not None and pos >= gone:
-                            continue          # close after gone: the open findings (corpus witnesses)
                         for ack in range(pos, len(evs) + 1):
                             out.append(build([(pos, [kind, 0, 1]), (ack, ['ack'])], [['acl', 0], ['asl', 0]]))
                     else:
@@ -573,7 +547,7 @@ class P(core.Prop):
         return out, ('every legal history of exactly 4 events over 1 circuit id x 1 stream id (C07 alphabet), each with '
                      'two pre-registered listeners, crossed with (a) one more global circuit / stream listener added at every '
                      'position, (b) one when_built / when_closed / Circuit.close / Stream.close on the first object at every '
-                     'position where it exists and is not gone, the acknowledgement of a close at every later position')
+                     'position where it exists (also after it is gone), the acknowledgement of a close at every later position')
 
     def shrink_candidates(self, case):
         ops = case['ops']
@@ -597,10 +571,7 @@ class P(core.Prop):
             for i in range(len(l) - 1, -1, -1):
                 yield dict(case, **{name: l[:i] + l[i + 1:]})
 
-    finding_preds = {
-        'stream_close_after_gone': lambda c, o: close_after_gone(c, False),
-        'circuit_close_after_failed': lambda c, o: close_after_gone(c, True),
-    }
+    finding_preds = {}
 
 
 PROP = P()
